@@ -19,7 +19,8 @@ RULE = ("all 14 signing algorithms (EdDSA over both curves) x compact / flattene
         "model verifies; the Lean model signs (primitives answered by reference signers) -> joserfc verifies; detach/restore of "
         "content; non-trivial = distinct (algorithm, serialization, header, payload, key form)")
 ASSUMPTIONS = ["C03 theorems assume JwsLaws: json dumps/loads round trip on header objects, signatures are octet strings, "
-               "sign/verify round trip per family, ECDSA r,s below 2^bits",
+               "sign/verify round trip per family, ECDSA r,s below 2^bits, an RSA signature has the octet length of the modulus (RFC 8017 I2OSP; "
+               "checked on every produced signature by the reference verifier, which refuses any other length)",
                "JSON serialization of an unencoded payload that is not valid UTF-8 is inadmissible (RFC 7797 section 5.1)"]
 
 
